@@ -103,4 +103,24 @@ PLAN = {
         "parts": [part("genlab", "c09", q=1, t=1, tq=900, tt=3600)],
         "assumptions": ["rustc's diagnostics are attributed to a module through the file name of the span (or of its macro expansion)"],
     },
+    "C16": {
+        "level": "exploration",
+        "pkg": "vproc",
+        "parts": [part("procx", "c16", q=8, t=16, tq=600, tt=3600)],
+        "assumptions": ["one OS schedule per enumerated case; every spawned process has a 10 s cap, a hang is a violation"],
+    },
+    "C18": {
+        "level": "exploration",
+        "pkg": "vproc",
+        "needs_repo_bins": ["varlink-cli"],
+        "parts": [part("procx", "c18", q=16, t=16, tq=600, tt=3600)],
+        "assumptions": ["one OS schedule per enumerated case", "the resolver is bound at unix:/run/org.varlink.resolver because proxy.rs hard-codes that address; if the path is taken the resolver mode is skipped and said so"],
+    },
+    "C20": {
+        "level": "exploration",
+        "pkg": "vproc",
+        "needs_repo_bins": ["varlink-cli"],
+        "parts": [part("procx", "c20", q=8, t=16, tq=600, tt=3600)],
+        "assumptions": ["one OS schedule per enumerated case"],
+    },
 }
